@@ -337,7 +337,9 @@ def check(run: Run) -> None:
         cn = R.aliases_of(fa)
         rets = R.find(fa, lambda n: isinstance(n, C.Return) and isinstance(n.e, C.Init))
         run.sites(len(rets), 1, "return NodeScheduler{...}")
+        sub = R.const_locals(fa, cn)
         args = [cn(a) for a in rets[0].e.elems]
+        args = [a if a == "supports_wall_clock" else sub(a) for a in args]        # a write-once local naming an accessor is the accessor
         run.count(1, "C18.f")
         want = ["view.scheduler_state()", "view.graph_value()", "view.node_index()", "evaluation_time", "view.started()",
                 "view.evaluation_clock()", "supports_wall_clock"]
@@ -349,6 +351,7 @@ def check(run: Run) -> None:
         run.sites(len(d), 1, "supports_wall_clock")
         txt = cn(d[0].init)
         if txt not in ("executor.valid()&&(executor.schema()->mode==GraphExecutorMode::RealTime)",
+                       "(executor.schema()->mode==GraphExecutorMode::RealTime)&&executor.valid()",
                        "view.graph().executor().valid()&&(view.graph().executor().schema()->mode==GraphExecutorMode::RealTime)"):
             run.finding("C18.f", "supports_wall_clock", f"supports_wall_clock must be executor.valid() && mode==RealTime, is {txt}",
                         loc=fa.loc(d[0]))
